@@ -241,19 +241,30 @@ where
                             }
                         }
 
+                        // New offset from sequence base address in the transformed wasm binary
+                        // can be different from one in the original wasm binary.
+                        // Therefore, reculculating the new offset here.
+                        let from_row_address = from_row.address() + from_base_address;
+                        let row_address = (self.convert_address)(
+                            from_row_address,
+                            AddressSearchPreference::InclusiveFunctionEnd,
+                        );
+
+                        // The code at the base address of the sequence may have been
+                        // removed while later rows of the sequence are still mapped:
+                        // start the sequence at the first row that is.
+                        if current_sequence_base_address.is_none() && !from_row.end_sequence() {
+                            if let Some(write::Address::Constant(_)) = row_address {
+                                current_sequence_base_address = row_address;
+                                program.begin_sequence(current_sequence_base_address);
+                                last_address_offset = 0;
+                            }
+                        }
+
                         if let Some(write::Address::Constant(base_address)) =
                             current_sequence_base_address
                         {
-                            // New offset from sequence base address in the transformed wasm binary
-                            // can be different from one in the original wasm binary.
-                            // Therefore, reculculating the new offset here.
-                            let from_row_address = from_row.address() + from_base_address;
-                            let row_address = (self.convert_address)(
-                                from_row_address,
-                                AddressSearchPreference::InclusiveFunctionEnd,
-                            );
-
-                            // either sequence_base_address or row_address is not resolved, ignore this entry.
+                            // row_address is not resolved, ignore this entry.
                             if let Some(write::Address::Constant(address)) = row_address {
                                 // Functions may have been reordered, so a sequence that
                                 // covers several functions does not necessarily stay
@@ -313,6 +324,10 @@ where
                                     program.generate_row();
                                     last_address_offset = address_offset;
                                 }
+                            } else if from_row.end_sequence() {
+                                // The end of the sequence is not mapped: close the
+                                // sequence after its last row instead of leaving it open.
+                                program.end_sequence(last_address_offset + 1);
                             }
                         }
 
